@@ -374,6 +374,151 @@ def replicas_check(tier, seed):
         shutil.rmtree(work, ignore_errors=True)
 
 
+# ---------------------------------------------------------------------------------------------
+# C20 concurrency
+
+def keystore_locks(work, harness, procs=3):
+    """measures the lock programs on the real key store, model-checks KeyStoreLocks.tla on them, replays any deadlock on the real code"""
+    p = subprocess.run([harness, 'locks-measure'], capture_output=True, text=True, timeout=300)
+    if p.returncode != 0:
+        raise Inconclusive('locks-measure failed: ' + p.stderr[-2000:])
+    programs = json.loads(p.stdout.strip().splitlines()[-1])['programs']
+    pdef = '[' + ', '.join('%s |-> <<%s>>' % (k, ', '.join('"%s"' % x for x in v)) for k, v in sorted(programs.items())) + ']'
+    mc_wrapper(work, 'MCLocks', 'KeyStoreLocks', dict(ProgramsC=pdef, ProcsC='1..%d' % procs))
+    write_raw_cfg(os.path.join(work, 'locks.cfg'), ['SPECIFICATION Spec', 'VIEW StateView', 'CONSTANTS', '  Programs <- ProgramsC', '  Procs <- ProcsC',
+                                                    'INVARIANTS MutexOk DeadlockDump', 'CHECK_DEADLOCK FALSE'])
+    rc, out, wall = vlib.run_tlc(work, 'MCLocks.tla', 'locks.cfg', workers=vlib.NCPU, heap='8g', timeout=1200)
+    err = vlib.tlc_failed(out)
+    if err:
+        raise Inconclusive('KeyStoreLocks.tla: %s\n%s' % (err, out[-2000:]))
+    gen, dist, depth = vlib.parse_mc_summary(out)
+    dumps = printed_values(out, 'DEADLOCK')
+    confirmed, unconfirmed = [], []
+    seen = set()
+    for d in dumps:
+        prog = d[1]
+        key = json.dumps(prog, sort_keys=True)
+        if key in seen:
+            continue
+        seen.add(key)
+        if len(seen) > 4:
+            break
+        # prog is a TLA function 1..n -> name: printed as a sequence
+        if isinstance(prog, list):
+            prog = {str(i + 1): n for i, n in enumerate(prog)}
+        sched = dict(prog=prog, trace=d[2])
+        sf = os.path.join(work, 'lock-sched-%d.json' % len(seen))
+        json.dump(sched, open(sf, 'w'))
+        r = subprocess.run([harness, 'locks-replay', sf], capture_output=True, text=True, timeout=120)
+        try:
+            res = json.loads(r.stdout.strip().splitlines()[-1])
+        except Exception:
+            raise Inconclusive('locks-replay gave no verdict: ' + r.stdout[-500:] + r.stderr[-1500:])
+        (confirmed if res.get('deadlock') else unconfirmed).append(dict(schedule=sched, result=res))
+    return dict(programs=programs, states=dist, transitions=gen, model_deadlocks=len(dumps), confirmed=confirmed, unconfirmed=unconfirmed)
+
+
+def snapshot_model(work):
+    mc_wrapper(work, 'MCSnapshot', 'Snapshot', dict(ReadersC='{1, 2}'))
+    write_raw_cfg(os.path.join(work, 'snap.cfg'), ['SPECIFICATION Spec', 'CONSTANTS', '  Readers <- ReadersC', '  MaxHeight = 3', 'INVARIANTS IntervalRule TypeOk', 'CHECK_DEADLOCK FALSE'])
+    rc, out, wall = vlib.run_tlc(work, 'MCSnapshot.tla', 'snap.cfg', workers=vlib.NCPU, heap='8g', timeout=1200)
+    err = vlib.tlc_failed(out)
+    if err:
+        raise Inconclusive('Snapshot.tla: %s\n%s' % (err, out[-2000:]))
+    gen, dist, depth = vlib.parse_mc_summary(out)
+    return dist, gen
+
+
+def conc_jobs(work, seed, n, nblocks=6, per=2, readers=8, sweep=False):
+    hists = [h for h in sim_histories(work, seed, max(40, n * 4), depth=60) if len(h) >= nblocks * per]
+    if not hists:
+        hists = sim_histories(work, seed, 80, depth=60)
+    jobs = []
+    for i in range(n):
+        txs = hists[(i + seed) % len(hists)]
+        shape = [per] * min(nblocks, max(1, len(txs) // per))
+        jobs.append(dict(id='C20-c%d' % i, cfg={}, blocks=shape_history(txs, shape), noise=txs[:3], readers=readers, sweep=sweep))
+    return jobs
+
+
+def concurrency_check(tier, seed):
+    pid = 'C20'
+    t0 = time.time()
+    q = tier == 'quick'
+    work = vlib.scratch(pid)
+    try:
+        vlib.copy_spec(work)
+        harness = vlib.build_harness()
+        viol = []
+        # (2) key-store deadlock freedom
+        ks = keystore_locks(work, harness, 3)
+        for ci, c in enumerate(ks['confirmed']):
+            viol.append(dict(kind='VIOLATION', id='C20', run='keystore-deadlock-%d' % ci, step=0, line=0, file=''))
+        drift = [dict(id='keystore-model-deadlock-not-reproduced', run=json.dumps(u['schedule']['prog']), step=0) for u in ks['unconfirmed']]
+        # (1) snapshot reads
+        sstates, strans = snapshot_model(work)
+        jobs = conc_jobs(work, seed, 6 if q else 60)
+        traces = run_harness_jobs(work, harness, 'concurrent', jobs, nproc=2 if q else 4)
+        write_raw_cfg(os.path.join(work, 'snaptrace.cfg'), ['SPECIFICATION TraceSpec', 'POSTCONDITION TraceAccepted', 'CHECK_DEADLOCK FALSE'])
+        v2, d2, lines = validate_with(work, 'SnapshotTrace.tla', 'snaptrace.cfg', traces)
+        viol += v2
+        drift += d2
+        nq = 0
+        for tf in traces:
+            for ln in open(tf):
+                if '"QEnd"' in ln:
+                    nq += 1
+        # (3) data races: auxiliary detector riding on the same schedules (thorough tier; the -race build of the whole application is slow)
+        race = None
+        if not q:
+            race = race_run(work, seed)
+            for ri, r in enumerate(race['reports']):
+                viol.append(dict(kind='VIOLATION', id='C20', run='data-race-%d' % ri, step=0, line=0, file=''))
+        jobs_by_id = {j['id']: j for j in jobs}
+        for ci, c in enumerate(ks['confirmed']):
+            jobs_by_id['keystore-deadlock-%d' % ci] = c
+        if race:
+            for ri, r in enumerate(race['reports']):
+                jobs_by_id['data-race-%d' % ri] = dict(race_report=r)
+        cov = dict(states=ks['states'] + sstates, transitions=ks['transitions'] + strans, traces_validated_against_impl=len(jobs) + len(ks['confirmed']) + len(ks['unconfirmed']),
+                   trace_events_validated=lines, queries_validated=nq,
+                   samples=[dict(keystore_lock_programs_measured=ks['programs']), dict(concurrent_job=dict(blocks=[len(b) for b in jobs[0]['blocks']], readers=jobs[0]['readers']))],
+                   evaluations=nq, distinct_nontrivial=nq,
+                   rule='key store: the lock program of each of the 6 public operation paths is measured on the real code and all interleavings of 3 concurrent calls are model-checked; '
+                        'snapshot: Snapshot.tla (2 readers, 3 heights) is model-checked and every finished query of the concurrent runs (8 readers, gRPC query path, current and historical heights, '
+                        'mempool noise) is checked against its interval rule; non-trivial = queries that finished while the run was going on',
+                   exhaustive=True, keystore_model_deadlocks=ks['model_deadlocks'], keystore_deadlocks_confirmed=len(ks['confirmed']), race_detector=race)
+        return conclude(pid, tier, seed, t0, viol, drift, cov,
+                        ['Go sync.RWMutex semantics as modelled in KeyStoreLocks.tla (writer preference)',
+                         'consensus and mempool ABCI calls are serialised (as CometBFT v0.37 local client does); queries use the concurrent gRPC path (CreateQueryContext)',
+                         'data races: auxiliary `go build -race` run in the thorough tier only; only reports whose stack touches github.com/medibloc/panacea-core count'],
+                        jobs_by_id, sig_of=lambda v: v['run'].rsplit('-', 1)[0])
+    finally:
+        shutil.rmtree(work, ignore_errors=True)
+
+
+def race_run(work, seed):
+    harness = vlib.build_harness(race=True)
+    jobs = conc_jobs(work, seed + 3, 3, sweep=True)
+    jf = os.path.join(work, 'race-jobs.ndjson')
+    with open(jf, 'w') as f:
+        for j in jobs:
+            f.write(json.dumps(j) + '\n')
+    p = subprocess.run([harness, 'concurrent', jf, os.path.join(work, 'race-trace.ndjson')], capture_output=True, text=True, timeout=3000,
+                       env=dict(os.environ, GORACE='halt_on_error=0'))
+    reports = []
+    for blk in p.stderr.split('WARNING: DATA RACE')[1:]:
+        blk = blk.split('==================')[0]
+        if 'medibloc/panacea-core' in blk:
+            reports.append(blk[:3000])
+    ksp = subprocess.run([harness, 'locks-stress'], capture_output=True, text=True, timeout=600, env=dict(os.environ, GORACE='halt_on_error=0'))
+    for blk in ksp.stderr.split('WARNING: DATA RACE')[1:]:
+        blk = blk.split('==================')[0]
+        if 'medibloc/panacea-core' in blk:
+            reports.append(blk[:3000])
+    return dict(reports=reports[:5], total_race_warnings=p.stderr.count('WARNING: DATA RACE') + ksp.stderr.count('WARNING: DATA RACE'), exit=p.returncode)
+
+
 NO_STORE_THEN = {'vesting', 'genutil', 'crisis'}   # modules of the first descriptor's fromVM that had no KV store at that SDK version
 STORE_NAME = {'auth': 'acc'}
 
@@ -412,6 +557,7 @@ def upgrades_static(work, harness):
 
 CHECKS = {
     'C09': replicas_check,
+    'C20': concurrency_check,
     'C10': lambda tier, seed: node_check('C10', tier, seed),
     'C19': lambda tier, seed: node_check('C19', tier, seed),
 }
